@@ -414,7 +414,7 @@ Params == {<<"k", 1>>, <<"k", 2>>, <<"n", "p">>}
 ParamLists == {<< >>} \cup {<< <<q, r>> >> : q \in Params, r \in Full}
               \cup {<< <<x[1], x[2]>>, <<x[3], x[4]>> >> : x \in Params \X Full \X Params \X Full}
 PVals(ps) == [i \in 1..Len(ps) |-> <<ps[i][1], reg[ps[i][2]]>>]
-Notes == {"", "n"}
+Notes == {"", "n", " "}   \* a blank note is a note (with_note stores it verbatim)
 Dates == {NoDate, "int", "frac", "neg"}
 BuildExpressionA == \E dst \in Reg, f \in Fns : \E ps \in ParamLists :
       Call("expression", dst, <<f, ps>>, Ok(ExprEnv(f, PVals(ps))))
